@@ -35,34 +35,40 @@ def metaOk (F : File) : Bool :=
   F.openOk && F.bnet == 0 && F.fnet == 0 && F.btyp == 0 && F.ftyp == 0 && F.bstart == F.fstart &&
   F.blocks.length == F.filters.length && !F.blocks.isEmpty
 
-/-- **success clause**: both stores hold, height for height, exactly their
-earlier contents extended by the file's headers up to the file's last height;
-they are usable; the block chain is connected and every appended header is
-valid.  (`pre` is assumed usable.) -/
-def successOk (pre : Obs) (F : File) (post : Obs) : Bool :=
+/-- contents part of the **success clause**: both stores hold, height for
+height, exactly their earlier contents extended by the file's headers up to the
+file's last height, and they are usable.  (`pre` is assumed usable.) -/
+def contentOk (pre : Obs) (F : File) (post : Obs) : Bool :=
   metaOk F && usable post &&
   decide (F.bstart ≤ pre.blocks.length) && decide (F.bstart ≤ pre.filters.length) &&
   post.blocks == extend pre.blocks F.blocks F.bstart &&
-  post.filters == extend pre.filters F.filters F.bstart &&
+  post.filters == extend pre.filters F.filters F.bstart
+
+/-- chain part: the block chain stays connected and every appended header is valid -/
+def chainOk (pre post : Obs) : Bool :=
   (!connected pre.blocks || connected post.blocks) &&
   (post.blocks.drop pre.blocks.length).all (·.valid)
+
+/-- **success clause** -/
+def successOk (pre : Obs) (F : File) (post : Obs) : Bool := contentOk pre F post && chainOk pre post
 
 /-- **idempotence clause**: the second identical import succeeds and changes nothing -/
 def idempotentOk (post : Obs) (second : Bool) (post2 : Obs) : Bool := second && post2 == post
 
-/-- **failure clause**: stores usable, the filter store not ahead of the block
-store (unless it already was), old contents kept, and whatever was appended is
-the file's header for that height — valid and connected. -/
-def failureOk (pre : Obs) (F : File) (post : Obs) : Bool :=
+/-- contents part of the **failure clause**: stores usable, the filter store not
+ahead of the block store (unless it already was), old contents kept, and
+whatever was appended is the file's header for that height. -/
+def failContentOk (pre : Obs) (F : File) (post : Obs) : Bool :=
   usable post &&
   (decide (pre.filters.length > pre.blocks.length) || decide (post.filters.length ≤ post.blocks.length)) &&
   decide (pre.blocks.length ≤ post.blocks.length) && decide (pre.filters.length ≤ post.filters.length) &&
   post.blocks == pre.blocks ++ (F.blocks.drop (pre.blocks.length - F.bstart)).take (post.blocks.length - pre.blocks.length) &&
   post.filters == pre.filters ++ (F.filters.drop (pre.filters.length - F.bstart)).take (post.filters.length - pre.filters.length) &&
   (decide (post.blocks.length = pre.blocks.length) || (metaOk F && decide (F.bstart ≤ pre.blocks.length))) &&
-  (decide (post.filters.length = pre.filters.length) || (metaOk F && decide (F.bstart ≤ pre.filters.length))) &&
-  (!connected pre.blocks || connected post.blocks) &&
-  (post.blocks.drop pre.blocks.length).all (·.valid)
+  (decide (post.filters.length = pre.filters.length) || (metaOk F && decide (F.bstart ≤ pre.filters.length)))
+
+/-- **failure clause** (appended headers, if any, are valid and connected) -/
+def failureOk (pre : Obs) (F : File) (post : Obs) : Bool := failContentOk pre F post && chainOk pre post
 
 /-- The recorded defect's shape (F7): the file's first header is above height 0
 and the import has something to append (the file reaches above the lower of the
